@@ -164,8 +164,8 @@ class Check:
             self.notes.append("tlapm not installed: proofs of %s not re-checked" % module)
             return None
         d = tempfile.mkdtemp(prefix="tlaps-", dir=self.work)
-        for f in (module,) + tuple(deps):
-            shutil.copy(os.path.join(VERIF, "spec", subdir, f + ".tla"), d)
+        for f in (module,) + tuple(deps):            # a dependency of another directory is written "dir/Module"
+            shutil.copy(os.path.join(VERIF, "spec", *(f.split("/") if "/" in f else (subdir, f))) + ".tla", d)
         t0 = time.time()
         try:
             p = subprocess.run(["tlapm", "--threads", "8", "--cleanfp", module + ".tla"], cwd=d, capture_output=True, text=True, timeout=timeout)
@@ -246,6 +246,13 @@ class Check:
         n_traces = len(bounds)
         if n_traces == 0:
             return [lines], 0, n_events
+        if not getattr(self, "_sample_fallback", None):      # a trace of this run, in case the suite's summary carries no sample
+            mid = bounds[n_traces // 2]
+            nxt = bounds[n_traces // 2 + 1] if n_traces // 2 + 1 < n_traces else n_events
+            try:
+                self._sample_fallback = [json.loads(x) for x in lines[mid:min(nxt, mid + 6)]]
+            except ValueError:
+                pass
         per = max(1, (n_traces + shards - 1) // shards)
         out = []
         for s in range(0, n_traces, per):
@@ -293,6 +300,8 @@ class Check:
     def finish(self, level="model_checking"):
         for s, v in self.cov.get("beyond_property", {}).items():
             print("NOTE beyond-property (growth specification, not part of %s): %s (sig=%s, %d occurrence(s))" % (self.pid, v["what"], s, v["count"]))
+        if not self.cov.get("samples") and getattr(self, "_sample_fallback", None):
+            self.cov["samples"] = [self._sample_fallback]
         ev = {
             "property_id": self.pid, "tier": self.tier, "seed": self.seed, "level": level,
             "coverage": self.cov, "assumptions": self.assumptions, "wall_s": round(time.time() - self.t0, 2),
